@@ -20,7 +20,19 @@ RULE = (
     "Delaunay geometry taken cyclically from the 44 geometries (3i+7j mod 20, 5i+7j mod 24 of mask index i and "
     "sub-map index j, so every sub-map index meets every geometry); G ('geometry') = every one of the 44 geometries "
     "(4 source-plane menus x (5 rectangular shapes + 6 Delaunay vertex menus)) x every mask on the tier's G frames x "
-    "sub-size maps {uniform 2, cyclic 1..4}; N = rectangular neighbour tables for every shape in a square range. "
+    "sub-size maps {uniform 2, cyclic 1..4}; N = rectangular neighbour tables for every shape in a square range, on a "
+    "bare mesh object in every read order of its two derived tables (neighbours alone; edge_pixel_list then neighbours; "
+    "neighbours then edge_pixel_list; both read again at the end); H ('histories') = read-order histories on ONE mapper "
+    "object: for every mesh geometry (5 rectangular shapes, 6 Delaunay vertex menus) every ordered d-tuple of distinct "
+    "reads out of the menu of 12 (rectangular) / 16 (Delaunay) public reads (neighbours+sizes, edge_pixel_list, "
+    "pix_sub_weights, the three pix_*_for_sub_slim_index tables, mapping_matrix, unique_mappings, pixel_signals_from, "
+    "sub_slim_indexes_for_pix_index(_arr), data_weight_total_for_pix_from, mapped_to_source_from, "
+    "interpolated_array_from, a Constant regularization matrix; Delaunay also mesh.delaunay, mesh.voronoi, "
+    "mesh.split_cross, pix_sub_weights_split_cross) is evaluated first on the pristine object, then the remaining reads "
+    "in menu order (plus the whole menu reversed), and finally every observable of the property is read again; every "
+    "observable is compared with the REFERENCE model each time it is read (never with an earlier read), the other "
+    "reads are events whose values are not judged. (mask, sub-size map) and source-plane menu of an H case are taken "
+    "cyclically from 3 plumbing cases x 4 source menus by the order index. "
     "The rectangular mesh is the library's own overlay_grid on the source-plane points, the Delaunay vertices are a "
     "menu in unit coordinates scaled to 1.2x the image frame. non-trivial = at least one image pixel is split over "
     ">= 2 source pixels (a row of the mapping matrix with >= 2 non-zero entries); for N: always"
@@ -37,14 +49,23 @@ ASSUMPTIONS = [
     "the grouping 'sub-pixels of image pixel i' is the over-sampler's documented layout (contiguous blocks of sub_i^2 "
     "sub-pixels in slim order); the reference computes owner and 1/sub_i^2 itself and does not read over_sampler tables",
     "Voronoi natural-neighbour weights are out of scope (stated in the property; the C library is absent)",
+    "read-order interference (one read damaging a cached table another read returns, or changing an input another read "
+    "consumes) is a matter of which tables alias each other, not of the source-plane menu or the mask: the H block "
+    "enumerates orders x mesh geometry completely and pairs the (mask, sub-size map, source menu) cyclically; an "
+    "interference that needs three specific earlier reads is inside the thorough tier (d=3), one that needs four is not "
+    "enumerated unless the menu order or its reverse happens to contain it",
+    "edge pixels of a rectangular mesh = pixels with fewer than four 4-connected neighbours (the outer ring); the edge "
+    "pixels of a triangulation (unbounded Voronoi cells) are not part of the property and are read as an event only",
 ]
 BOUNDS = {
     "quick": "P: all masks with <= 9 cells (every shape) x sub-maps {1,2,3,4 uniform; cyclic up/down 1..4; cyclic up as float "
              "dtype; all of {1,2,3}^n for n<=3}; G: all masks on 3x3, 2x4, 4x2 frames x {sub 2, cyclic} x 44 geometries "
              "(source menus identity/shear/warp/magnify x rect 3x3,3x4,4x3,5x3,3x5 + Delaunay menus of 5..10 vertices); "
-             "N: rect shapes 3..9 x 3..9",
+             "N: rect shapes 3..9 x 3..9 x 3 read orders of the bare mesh; H: 5 rect shapes x 133 orders (d=2 prefixes of 12 "
+             "reads + reversed menu) + 6 Delaunay menus x 241 orders (d=2 prefixes of 16 reads + reversed menu)",
     "thorough": "P: all masks with <= 12 cells x sub-maps as quick but {1,2,3}^n for n<=4; G: all masks on 3x3, 2x4, 4x2, "
-                "3x4, 4x3, 2x5, 5x2 frames x {sub 2, cyclic} x 44 geometries; N: rect shapes 3..14 x 3..14",
+                "3x4, 4x3, 2x5, 5x2 frames x {sub 2, cyclic} x 44 geometries; N: rect shapes 3..14 x 3..14 x 3 read orders; "
+                "H: as quick with d=3 prefixes (1321 orders per rect shape, 3361 per Delaunay menu)",
 }
 
 # ----------------------------------------------------------------------------- menus
@@ -82,6 +103,43 @@ def sub_menu(n, tier):
     return out + lists
 
 
+# ---- read-order histories (block H and the orders of block N)
+#
+# one read = one public derived table / query of the mapper (or of its mesh through the mapper).  Reads marked (*) are
+# observables of the property and are compared with the reference model every time they are read; the others are
+# consumers of the same cached tables (what a regularization scheme, an inversion with edge-pixel zeroing or a plotter
+# evaluates) and act as events only - apart from exceptions nothing is demanded of their values.
+#   nb (*)    mapper.neighbors (arr + sizes)                     edge (*)  mapper.edge_pixel_list
+#   psw (*)   mapper.pix_sub_weights (mappings, sizes, weights)  trio (*)  pix_indexes/_sizes/_weights_for_sub_slim_index
+#   M (*)     mapper.mapping_matrix                              um (*)    mapper.unique_mappings
+#   sig       mapper.pixel_signals_from(1.0)                     inv       sub_slim_indexes_for_pix_index(_arr)
+#   dwt       mapper.data_weight_total_for_pix_from()            m2s       mapper.mapped_to_source_from(array)
+#   interp    mapper.interpolated_array_from(values, (4, 5))     reg       Constant regularization matrix of the mapper
+#   tri / vor / split / pswx (Delaunay only): mesh.delaunay, mesh.voronoi, mesh.split_cross, pix_sub_weights_split_cross
+H_READS_RECT = ("nb", "edge", "psw", "trio", "M", "um", "sig", "inv", "dwt", "m2s", "interp", "reg")
+H_READS_DEL = H_READS_RECT + ("tri", "vor", "split", "pswx")
+H_CHECKED = ("nb", "edge", "psw", "trio", "M", "um")
+N_ORDERS = ("n", "en", "ne")  # bare mesh: neighbours alone (fresh), after / before edge_pixel_list; all re-read at the end
+# (h, w, mask bits, sub-size map) used by the H block, paired cyclically with the orders
+H_PLUMBING = (
+    (2, 2, 0, [1, 2, 3, 4]),
+    (3, 3, 0b000010001, 2),
+    (1, 3, 0, [3.0, 1.0, 2.0]),
+)
+
+
+def h_orders(alpha, depth):
+    """
+    Every ordered `depth`-tuple of distinct reads as a prefix on the pristine object, followed by the remaining reads
+    in menu order; plus the complete reverse of the menu.  With depth 2 every ordered pair (X read before Y) occurs
+    with X as the very first read of the object, and every pair occurs in both relative orders.
+    """
+    alpha = list(alpha)
+    for pre in itertools.permutations(alpha, depth):
+        yield list(pre) + [a for a in alpha if a not in pre]
+    yield alpha[::-1]
+
+
 def g_frames(tier):
     if tier == "quick":
         return [(3, 3), (2, 4), (4, 2)]
@@ -104,7 +162,17 @@ def cases(tier, seed):
     top = 9 if tier == "quick" else 14
     for R in range(3, top + 1):
         for C in range(3, top + 1):
-            yield ["N", R, C]
+            for order in N_ORDERS:
+                yield ["N", R, C, order]
+    # ---- H: read-order histories on ONE mapper / mesh object
+    depth = 2 if tier == "quick" else 3
+    for mkind, geos, alpha in (("rect", [list(sh) for sh in RECT_SHAPES], H_READS_RECT),
+                               ("del", list(range(N_DEL_MENUS)), H_READS_DEL)):
+        for gi, mparam in enumerate(geos):
+            for oi, order in enumerate(h_orders(alpha, depth)):
+                h, w, bits, sub = H_PLUMBING[(oi + gi) % len(H_PLUMBING)]
+                src = SRC_KINDS[(oi // len(H_PLUMBING) + gi) % len(SRC_KINDS)]
+                yield ["H", h, w, bits, sub, src, mkind, mparam, order, seed]
     # ---- P: index plumbing, exhaustive in mask x sub-size map
     ncell = 9 if tier == "quick" else 12
     for i, (h, w, bits) in enumerate(dom.all_mask_cases(ncell)):
@@ -213,7 +281,7 @@ def build_source_points(case, base, judge):
 # ----------------------------------------------------------------------------- shared oracles
 
 
-def check_neighbors(v, cls, nb, ref_adj):
+def check_neighbors(v, cls, nb, ref_adj, note=""):
     """Neighbour table (arr [P, max], -1 padded; sizes [P]) equals the reference adjacency and is symmetric."""
     arr = np.asarray(nb)
     sizes = np.asarray(nb.sizes)
@@ -229,7 +297,7 @@ def check_neighbors(v, cls, nb, ref_adj):
         lib.append(row)
         if bad is None and (row is None or len(set(row)) != len(row) or set(row) != ref_adj[p]):
             bad = "pixel %d: neighbours %s (size %d) expected %s" % (p, row, k, sorted(ref_adj[p]))
-    v.ok(bad is None, cls, lambda: "neighbour list differs from mesh adjacency: " + bad)
+    v.ok(bad is None, cls, lambda: "neighbour list differs from mesh adjacency: " + bad + note)
     asym = None
     for p in range(P):
         for q in (lib[p] or []):
@@ -238,7 +306,7 @@ def check_neighbors(v, cls, nb, ref_adj):
                 break
         if asym:
             break
-    v.ok(asym is None, cls, lambda: "neighbour lists not symmetric: " + asym)
+    v.ok(asym is None, cls, lambda: "neighbour lists not symmetric: " + asym + note)
 
 
 def guarded(v, fn):
@@ -366,7 +434,11 @@ def run_case(case):
     if case[0] == "N":
         run_rect_neighbors(aa, v, case)
         return v.result()
-    _, h, w, bits, sub, src, mkind, mparam, seed = case
+    order = None
+    if case[0] == "H":
+        _, h, w, bits, sub, src, mkind, mparam, order, seed = case
+    else:
+        _, h, w, bits, sub, src, mkind, mparam, seed = case
     m = dom.mask_from_bits(h, w, bits)
     n = int((~m).sum())
     subs = [int(sub)] * n if isinstance(sub, int) else [int(x) for x in sub]
@@ -381,7 +453,9 @@ def run_case(case):
     img, owner = image_points(m, subs)
     base = distort(img, src)
     check_over_sampler(v, osr, owner, subs)
-    if mkind == "rect":
+    if order is not None:
+        run_history(aa, v, case, mask, osr, n, subs, owner, base, mkind, mparam, h, w, seed, [str(x) for x in order])
+    elif mkind == "rect":
         run_rect(aa, v, case, mask, osr, n, subs, owner, base, tuple(mparam))
     elif mkind == "del":
         run_delaunay(aa, v, case, mask, osr, n, subs, owner, base, int(mparam), h, w, seed)
@@ -390,15 +464,44 @@ def run_case(case):
     return v.result()
 
 
+def rect_edge_pixels(shape):
+    """Edge pixels of the rectangular mesh: the pixels with fewer than four 4-connected neighbours (outer ring)."""
+    return sorted(p for p, a in enumerate(rrect.adjacency(shape)) if len(a) < 4)
+
+
+def check_edge_pixels(v, cls, lib, ref, note=""):
+    got = [int(x) for x in lib]
+    v.ok(sorted(got) == list(ref) and len(set(got)) == len(got), cls,
+         lambda: "edge_pixel_list %s expected %s%s" % (got, list(ref), note))
+
+
 def run_rect_neighbors(aa, v, case):
-    _, R, C = case
+    _, R, C = case[:3]
+    order = case[3] if len(case) > 3 else "n"
     grid = aa.Grid2DIrregular(values=[[1.0, -1.0], [-0.5, 2.0]])
     mesh = aa.Mesh2DRectangular.overlay_grid(shape_native=(R, C), grid=grid)
     v.ok(int(mesh.pixels) == R * C and tuple(mesh.shape_native) == (R, C), "rect:overlay-geometry",
          lambda: "pixels %s shape_native %s for %s" % (mesh.pixels, mesh.shape_native, (R, C)))
-    check_neighbors(v, "rect:neighbors", mesh.neighbors, rrect.adjacency((R, C)))
+    ref_adj = rrect.adjacency((R, C))
+    ref_edge = rect_edge_pixels((R, C))
+    if order == "n":
+        check_neighbors(v, "rect:neighbors", mesh.neighbors, ref_adj)
+    else:
+        # one bare mesh object, its two derived tables read in the given order and both read again at the end
+        done = []
+        for step in list(order) + ["n", "e"]:
+            note = " [reads so far on this mesh object: %s]" % (" -> ".join(done) or "none")
+            if step == "n":
+                ok, nb = guarded(v, lambda: mesh.neighbors)
+                if ok:
+                    check_neighbors(v, "rect:neighbors:read-order", nb, ref_adj, note)
+            else:
+                ok, ep = guarded(v, lambda: mesh.edge_pixel_list)
+                if ok:
+                    check_edge_pixels(v, "rect:edge_pixel_list:read-order", ep, ref_edge, note)
+            done.append("neighbors" if step == "n" else "edge_pixel_list")
     v.nontrivial = True
-    v.outcome = "N:rect:%s" % ("square" if R == C else ("tall" if R > C else "wide"))
+    v.outcome = "N:%s:rect:%s" % (order, "square" if R == C else ("tall" if R > C else "wide"))
 
 
 def run_rect(aa, v, case, mask, osr, n, subs, owner, base, shape):
@@ -593,3 +696,162 @@ def run_delaunay(aa, v, case, mask, osr, n, subs, owner, base, menu, h, w, seed)
         return "0" if k == 0 else ("some" if k < S else "all")
 
     v.outcome = "del:m%d:in-%s:split%d" % (menu, bucket(n_in), min(split, 4))
+
+
+# ----------------------------------------------------------------------------- block H: read-order histories on one object
+
+
+def _psw_rows(mp, sz, wt, S):
+    """Per sub-pixel {source pixel: weight} from a (mappings, sizes, weights) triple, or a string describing a malformed one."""
+    mp, sz, wt = np.asarray(mp), np.asarray(sz), np.asarray(wt, dtype=float)
+    if not (mp.ndim == 2 and mp.shape[0] == S and wt.shape == mp.shape and sz.shape == (S,)):
+        return "shapes mappings %s sizes %s weights %s for %d sub-pixels" % (mp.shape, sz.shape, wt.shape, S)
+    rows = []
+    for s in range(S):
+        k = int(sz[s])
+        if not (1 <= k <= mp.shape[1]):
+            return "sub-pixel %d: size %d outside 1..%d" % (s, k, mp.shape[1])
+        ids = [int(x) for x in mp[s, :k]]
+        if len(set(ids)) != k:
+            return "sub-pixel %d: duplicate source pixel in %s" % (s, ids)
+        rows.append(dict(zip(ids, (float(x) for x in wt[s, :k]))))
+    return rows
+
+
+def _rows_differ(rows, ref_rows):
+    for s, (a, b) in enumerate(zip(rows, ref_rows)):
+        if set(a) != set(b) or any(abs(a[p] - b[p]) > 1e-9 for p in b):
+            return "sub-pixel %d: {source pixel: weight} = %s expected %s" % (s, a, b)
+    return None
+
+
+def run_history(aa, v, case, mask, osr, n, subs, owner, base, mkind, mparam, h, w, seed, order):
+    """
+    ONE mapper object; the reads of `order` are evaluated on it one after the other and every observable of the
+    property is compared with the reference model (never with an earlier read) at the moment it is read; after the
+    last read every observable is read once more, so a table that a LATER read damaged in the cache is seen as well.
+    """
+    S = len(base)
+    adapt = aa.Array2D(values=0.3 + 0.7 * ((np.arange(n) * 5) % 7), mask=mask)
+    if mkind == "rect":
+        kind = "rect"
+        shape = tuple(int(x) for x in mparam)
+        P = shape[0] * shape[1]
+
+        def judge(pts):
+            geom = rrect.overlay_geometry(pts, shape)
+            return rrect.cells_of(pts, geom)[3] < EDGE_MARGIN
+
+        pts = build_source_points(case, base, judge)
+        ref_idx = rrect.cells_of(pts, rrect.overlay_geometry(pts, shape))[2]
+        ref_rows = [{int(ref_idx[s]): 1.0} for s in range(S)]
+        ref_adj = rrect.adjacency(shape)
+        ref_edge = rect_edge_pixels(shape)
+        sg = aa.Grid2DIrregular(values=pts.copy())
+        mesh = aa.Mesh2DRectangular.overlay_grid(shape_native=shape, grid=sg)
+    else:
+        kind = "delaunay"
+        verts, tris, _mg = build_vertices(int(mparam), h, w, seed)
+        P = len(verts)
+
+        def judge(pts):
+            return rdel.locate_many(verts, tris, pts)[2] < EDGE_MARGIN
+
+        pts = build_source_points(case, base, judge)
+        _tri, ref_w, _margin = rdel.locate_many(verts, tris, pts)
+        ref_rows = [dict(ref_w[s]) for s in range(S)]
+        ref_adj = rdel.adjacency_from_triangles(P, tris)
+        ref_edge = None  # the edge pixels of a triangulation (unbounded Voronoi cells) are not part of the property: event only
+        sg = aa.Grid2DIrregular(values=pts.copy())
+        mesh = aa.Mesh2DDelaunay(values=aa.Grid2DIrregular(values=verts.copy()))
+    mapper = aa.Mapper(
+        mapper_grids=aa.MapperGrids(mask=mask, source_plane_data_grid=sg, source_plane_mesh_grid=mesh, adapt_data=adapt),
+        over_sampler=osr, regularization=None,
+    )
+    Mref = accumulate(n, P, owner, subs, [list(r.items()) for r in ref_rows])
+    values = 1.0 + ((np.arange(P) * 3) % 5).astype(float)
+    done = []
+
+    def note():
+        return " [reads so far on this mapper object: %s]" % (" -> ".join(done) or "none")
+
+    def cls(name):
+        return "%s:%s:read-order" % (kind, name)
+
+    def rd_nb():
+        check_neighbors(v, cls("neighbors"), mapper.neighbors, ref_adj, note())
+
+    def rd_edge():
+        ep = mapper.edge_pixel_list
+        if ref_edge is not None:
+            check_edge_pixels(v, cls("edge_pixel_list"), ep, ref_edge, note())
+
+    def rows_check(name, mp, sz, wt):
+        rows = _psw_rows(mp, sz, wt, S)
+        if v.ok(not isinstance(rows, str), cls(name), lambda: "%s%s" % (rows, note())):
+            bad = _rows_differ(rows, ref_rows)
+            v.ok(bad is None, cls(name), lambda: "interpolation weights differ from the reference: %s%s" % (bad, note()))
+
+    def rd_psw():
+        psw = mapper.pix_sub_weights
+        rows_check("pix_sub_weights", psw.mappings, psw.sizes, psw.weights)
+
+    def rd_trio():
+        rows_check("pix_weights_for_sub_slim_index", mapper.pix_indexes_for_sub_slim_index,
+                   mapper.pix_sizes_for_sub_slim_index, mapper.pix_weights_for_sub_slim_index)
+
+    def rd_M():
+        M = np.array(mapper.mapping_matrix, dtype=float)
+        if v.ok(M.shape == (n, P), cls("mapping_matrix"), lambda: "shape %s expected %s%s" % (M.shape, (n, P), note())):
+            v.ok(dom.close(M, Mref), cls("mapping_matrix"),
+                 lambda: "mapping_matrix != reference interpolation matrix; maxdiff=%s row sums %s%s" % (
+                     dom.maxdiff(M, Mref), M.sum(axis=1).tolist()[:6], note()))
+            v.ok(bool(np.all(np.abs(M.sum(axis=1) - 1.0) <= 1e-9)) and bool(np.all(M >= -1e-12)), cls("mapping_matrix"),
+                 lambda: "rows must be non-negative and sum to one: row sums %s min %s%s" % (M.sum(axis=1).tolist()[:6], M.min(), note()))
+
+    def rd_um():
+        um = mapper.unique_mappings
+        d2p = np.asarray(um.data_to_pix_unique)
+        dw = np.asarray(um.data_weights, dtype=float)
+        pl = np.asarray(um.pix_lengths)
+        if not v.ok(d2p.ndim == 2 and d2p.shape == dw.shape and d2p.shape[0] == n and pl.shape == (n,), cls("unique_mappings"),
+                    lambda: "shapes %s %s %s n=%d%s" % (d2p.shape, dw.shape, pl.shape, n, note())):
+            return
+        dense = np.zeros((n, P))
+        struct = None
+        for i in range(n):
+            L = int(pl[i])
+            ids = [int(x) for x in d2p[i, :L]] if 0 <= L <= d2p.shape[1] else None
+            if ids is None or len(set(ids)) != len(ids) or any(not (0 <= p < P) for p in ids) or L != int(np.sum(Mref[i] > 0)):
+                struct = struct or "pixel %d: pix_lengths %d, source pixels %s, reference row has %d non-zero entries" % (
+                    i, L, ids, int(np.sum(Mref[i] > 0)))
+                continue
+            for k, p in enumerate(ids):
+                dense[i, p] += dw[i, k]
+        v.ok(struct is None, cls("unique_mappings"), lambda: "unique mapping structure: %s%s" % (struct, note()))
+        v.ok(dom.close(dense, Mref), cls("unique_mappings"),
+             lambda: "dense matrix rebuilt from unique_mappings != reference interpolation matrix; maxdiff=%s%s" % (
+                 dom.maxdiff(dense, Mref), note()))
+
+    def rd_inv():
+        mapper.sub_slim_indexes_for_pix_index
+        mapper.sub_slim_indexes_for_pix_index_arr
+
+    reads = {
+        "nb": rd_nb, "edge": rd_edge, "psw": rd_psw, "trio": rd_trio, "M": rd_M, "um": rd_um,
+        "sig": lambda: mapper.pixel_signals_from(signal_scale=1.0),
+        "inv": rd_inv,
+        "dwt": lambda: mapper.data_weight_total_for_pix_from(),
+        "m2s": lambda: mapper.mapped_to_source_from(array=adapt),
+        "interp": lambda: mapper.interpolated_array_from(values=values, shape_native=(4, 5)),
+        "reg": lambda: aa.reg.Constant(coefficient=1.3).regularization_matrix_from(linear_obj=mapper),
+        "tri": lambda: mesh.delaunay,
+        "vor": lambda: mesh.voronoi,
+        "split": lambda: mesh.split_cross,
+        "pswx": lambda: mapper.pix_sub_weights_split_cross,
+    }
+    for name in list(order) + ["final:" + r for r in H_CHECKED]:
+        guarded(v, reads[name.split(":")[-1]])
+        done.append(name)
+    v.nontrivial = int(np.max(np.sum(Mref > 0, axis=1))) >= 2
+    v.outcome = "H:%s:first-%s" % (kind, order[0])
